@@ -33,11 +33,6 @@ Proof. exact writes_infer. Qed.
 Theorem C16_constructor_copy : forall p, items (ctor_copy p) = items p /\ incl (items (ctor_copy p)) (rec (ctor_copy p)).
 Proof. exact ctor_copy_ok. Qed.
 
-(* outside the fragment (known finding C16-i): item assignment with a negative index on a field that inference writes back into *)
-Theorem C16_refuted_setitem_grown :
-  setitem_grown (-1) 1 [2] [3] = Some [3; 1] /\ py_setitem (-1) 1 [3] = Some [1].
-Proof. exact refuted_setitem_grown. Qed.
-
 (* non-vacuity: the three formerly erasing writes, and an assignment with repetitions *)
 Example C16_nonvacuous :
   items (snd (Container.run KList [Assign [2; 1; 0; 1]; AssignSelf; IAug [3]] (init KList []))) = [2; 1; 0; 1; 3] /\
@@ -49,4 +44,3 @@ Print Assumptions C16_writes.
 Print Assumptions C16_constructor.
 Print Assumptions C16_inferences.
 Print Assumptions C16_constructor_copy.
-Print Assumptions C16_refuted_setitem_grown.
